@@ -9,7 +9,13 @@ A *case* is JSON:
            [n, "set", e], ...]}            # n = number of handles run before the action happens
 
 kind P = PriorityTask(priority=pri), Y = Python task (asyncio.tasks._PyTask, what create_pytask
-makes), T = plain asyncio.Task.  `acq k` .. `rel` is `async with locks[k]:`; nesting always goes to
+makes), T = plain asyncio.Task, R = a PriorityTask subclass whose overridden `priority()` can be armed to
+raise once (script op ["arm", i, n]: the n-th call of worker i's priority() from now, within the current
+handle, raises UserPriorityError), D = a Python task that only duck-types the priority protocol
+(add_owned_lock / remove_owned_lock / set_waiting_on / effective_priority / propagate_priority; it is not a
+PriorityTask).  For the model R and D are priority tasks.  ["eacq", k] .. ["rel"] is an acquire started
+eagerly (asynkit.coro_eager: the first part runs in the worker, the rest in a helper task) and a plain
+release(); runs that use it are judged by the oracles only (the helper task has no counterpart in the model).  `acq k` .. `rel` is `async with locks[k]:`; nesting always goes to
 higher lock numbers (fixed lock order).  The real primitives run on a real loop
 (asyncio.SelectorEventLoop or PrioritySelectorEventLoop); `asyncio.events.Handle._run` is wrapped,
 so after every ready handle the stepper regains control, performs the environment actions that are
@@ -38,6 +44,55 @@ class E2(Exception):
 
 class E3(BaseException):
     pass
+
+
+class UserPriorityError(Exception):
+    """what an armed user-written priority() raises"""
+
+
+PRIO_KINDS = ("P", "R", "D")
+
+
+def isp(kind: str) -> bool:
+    """does a worker of this kind take part in the priority protocol?"""
+    return kind in PRIO_KINDS
+
+
+_CLASSES = {}
+
+
+def task_classes():
+    """(RaisingTask, DuckTask), built on the library of the tree under test"""
+    P, _ = _mods()
+    if _CLASSES.get("P") is not P:
+        class RaisingTask(P.PriorityTask):
+            _armed = 0
+
+            def priority(self):
+                if self._armed:
+                    self._armed -= 1
+                    if self._armed == 0:
+                        raise UserPriorityError()
+                return self.priority_value
+
+        PT = P.PriorityTask
+
+        class DuckTask(asyncio.tasks._PyTask):
+            def __init__(self, coro, *, loop=None, priority=0):
+                self.priority_value = priority
+                self._holding_locks = set()
+                self._waiting_on = None
+                super().__init__(coro, loop=loop)
+
+            add_owned_lock = PT.add_owned_lock
+            remove_owned_lock = PT.remove_owned_lock
+            set_waiting_on = PT.set_waiting_on
+            priority = PT.priority
+            effective_priority = PT.effective_priority
+            propagate_priority = PT.propagate_priority
+
+        _CLASSES.update(P=P, R=RaisingTask, D=DuckTask)
+    return _CLASSES["R"], _CLASSES["D"]
 
 
 def _mods():
@@ -126,6 +181,10 @@ class Run:
         self.handovers = 0
         self.giveups = 0
         self.cycle_failed = set()
+        self.cb_failed = set()
+        self.armed = []
+        self.no_replay = False
+        self.eager_pending = {}
         self.aborted = False
         self.last_keys: dict = {}
 
@@ -156,6 +215,14 @@ class Run:
             elif op[0] == "badrel":
                 self.bad_release(w, op[1])
                 i += 1
+            elif op[0] == "arm":
+                t = self.tasks[op[1]]
+                if hasattr(type(t), "_armed"):
+                    t._armed = op[2]
+                    self.armed.append(t)
+                i += 1
+            elif op[0] == "eacq":
+                i = await self.eager_block(w, ops, i)
             else:
                 k = op[1]
                 cyc = self.closes_cycle(w, k)
@@ -180,11 +247,60 @@ class Run:
                         self.cycle_failed.add(w)
                         self.tags.add("acquire-raises-on-lock-order-cycle")
                     raise
+                except UserPriorityError:
+                    # a user-written priority() raised while acquire() computed the waiter's key or told
+                    # the owner about the new waiter: acquire() raises, the queue entry (if any) is removed
+                    # again by its finally clause - for the model, `acquireFails`
+                    if self.lines[at] == f"ev acquire {k}" and "obs" not in self.lines[at:]:
+                        self.lines[at] = f"ev acquirefails {k}"
+                        self.cycle_failed.add(w)
+                        self.cb_failed.add(w)
+                        self.tags.add("acquire-raises-from-user-priority-callback")
+                    raise
                 finally:
                     if self.waiting.pop(w, None) is not None:
                         self.giveups += 1          # left the queue without getting the lock
                     self.handover_check(k)
         return i
+
+    async def eager_block(self, w, ops, i):
+        """["eacq", k] ... ["rel"]: acquire() started eagerly in the worker, continued by a helper task"""
+        import asynkit
+        k = ops[i][1]
+        self.no_replay = True
+        self.waiting[w] = k
+        self.arrival[w] = next(self.stamp)
+        try:
+            pending = asynkit.coro_eager(self.locks[k].acquire())
+            if self.locks[k]._waiters and any(wr() is self.tasks[w] for _, wr in self.locks[k]._waiters):
+                self.tags.add("contended-acquire-started-eagerly")
+            self.eager_pending[w] = (k, pending)
+            try:
+                try:
+                    await pending
+                finally:
+                    self.eager_check()
+                    self.eager_pending.pop(w, None)
+                i = await self.block(w, ops, i + 1)
+            finally:
+                if k in self.hold.get(w, ()):      # the acquire was completed (by the helper task, perhaps)
+                    self.leave(w, k)
+                    self.locks[k].release()
+        finally:
+            if self.waiting.pop(w, None) is not None:
+                self.giveups += 1
+            self.handover_check(k)
+        return i
+
+    def eager_check(self):
+        """an eagerly started acquire() that its helper task has completed: the worker holds the lock"""
+        for w, (k, pending) in list(self.eager_pending.items()):
+            if k not in self.hold.get(w, ()) and pending.done() and not pending.cancelled() \
+                    and pending.exception() is None:
+                self.enter(w, k)
+            elif pending.done() and self.waiting.get(w) == k:
+                del self.waiting[w]                # the helper task has left the queue without the lock
+                self.giveups += 1
 
     def closes_cycle(self, w, k):
         """would worker w, by waiting for lock k, close a cycle of the harness's wait-for graph?"""
@@ -204,7 +320,7 @@ class Run:
         return (lock.locked(), self.index.get(own),
                 [(v, fr(p), f.done(), f.cancelled()) for p, _, f, v in self.entries(k)],
                 [sorted(self.lockidx[id(x)] for x in t._holding_locks) if
-                 self.case["workers"][i]["kind"] == "P" else None for i, t in enumerate(self.tasks)])
+                 isp(self.case["workers"][i]["kind"]) else None for i, t in enumerate(self.tasks)])
 
     def bad_release(self, w, k):
         """`release()` by a task that does not hold the lock: must be refused and change nothing"""
@@ -225,6 +341,7 @@ class Run:
                                      f"refused but changed the lock: {before} -> {after}")
 
     def enter(self, w, k):
+        self.disarm()                 # an armed priority() is for the first part of one acquire() only
         self.waiting.pop(w, None)
         self.count[k] = self.count.get(k, 0) + 1
         self.entered[w] = self.entered.get(w, 0) + 1
@@ -247,7 +364,7 @@ class Run:
 
     def eff(self, w, depth=0) -> Fraction:
         """effective priority recomputed from the harness's own wait-for graph"""
-        if self.case["workers"][w]["kind"] != "P" or depth > 40:
+        if not isp(self.case["workers"][w]["kind"]) or depth > 40:
             return Fraction(0)
         best = self.owns[w]
         for k in self.hold.get(w, ()):
@@ -258,7 +375,7 @@ class Run:
 
     def inherit_depth(self, w, depth=0) -> int:
         """length of the longest chain of tasks from which `w` currently inherits"""
-        if self.case["workers"][w]["kind"] != "P" or depth > 40:
+        if not isp(self.case["workers"][w]["kind"]) or depth > 40:
             return 0
         d = 0
         for k in self.hold.get(w, ()):
@@ -336,7 +453,7 @@ class Run:
             ws = ";".join(f"{w},{fr(p)},{'p' if not f.done() else ('c' if f.cancelled() else 'r')}"
                           for p, _, f, w in self.entries(k)) or "-"
             parts.append(f"L{k}:{1 if lock.locked() else 0}:"
-                         f"{self.index[own] if own is not None else '-'}:{ws}")
+                         f"{self.index.get(own, '?') if own is not None else '-'}:{ws}")
         for w, t in enumerate(self.tasks):
             kind = self.case["workers"][w]["kind"]
             if t.done():
@@ -345,7 +462,7 @@ class Run:
                 st = rm[w][0]
             else:
                 st = "b"
-            if kind == "P":
+            if isp(kind):
                 hl = sorted(self.lockidx[id(x)] for x in t._holding_locks)
                 hold = ".".join(map(str, hl)) or "-"
                 wo = self.lockidx[id(t._waiting_on)] if t._waiting_on is not None else "-"
@@ -408,7 +525,20 @@ class Run:
             if lock.locked() != (c == 1):
                 self.fail("locked-mismatch", f"lock {k}: locked()={lock.locked()} but {c} "
                                              f"worker(s) inside")
+            own = lock._owning() if lock._owning is not None else None
+            if self.index.get(own, "?") != self.holder.get(k):
+                self.fail("owner-mismatch", f"lock {k} records "
+                          f"{'worker %s' % self.index[own] if own in self.index else repr(own)} as its holder "
+                          f"while worker {self.holder.get(k)} is inside")
             ents = self.entries(k)
+            woken = [v for _, _, f, v in ents if f.done() and not f.cancelled()]
+            if len(woken) > 1:
+                self.fail("double-wakeup", f"lock {k}: workers {woken} have all been woken for it "
+                          f"(queue of {len(ents)})")
+            if len(ents) > 8:
+                self.tags.add("queue-longer-than-8" if len(ents) <= 16 else "queue-longer-than-16")
+                if any(f.done() for _, _, f, _ in ents):
+                    self.tags.add("long-queue-with-wakeup-in-flight")
             for _, _, _, v in ents:
                 if v is None or self.waiting.get(v) != k:
                     self.fail("dead-entry", f"lock {k} has a queue entry for worker {v}, which is not "
@@ -432,7 +562,7 @@ class Run:
                     self.arrive_pri[w] = p
                     self.arrive_seen[w] = self.arrival.get(w)
         for w, t in enumerate(self.tasks):
-            if self.case["workers"][w]["kind"] != "P":
+            if not isp(self.case["workers"][w]["kind"]):
                 continue
             real = self.real_eff(w)
             mine = self.eff(w)
@@ -454,10 +584,10 @@ class Run:
                     self.tags.add(f"inherits-through-chain-{min(d, 4)}")
         for w, k in self.waiting.items():
             h = self.holder.get(k)
-            if h is None or self.case["workers"][h]["kind"] != "P":
+            if h is None or not isp(self.case["workers"][h]["kind"]):
                 continue
             hw = self.real_eff(h)
-            ww = self.real_eff(w) if self.case["workers"][w]["kind"] == "P" else Fraction(0)
+            ww = self.real_eff(w) if isp(self.case["workers"][w]["kind"]) else Fraction(0)
             if hw is None or ww is None:
                 continue
             if hw > ww:
@@ -514,7 +644,13 @@ class Run:
                 self.sched_check(w)
             self.ev(f"resume {w}")
 
+    def disarm(self):
+        for t in self.armed:
+            t._armed = 0
+        self.armed = []
+
     def after(self, handle):
+        self.disarm()
         self.n += 1
         if self.n > MAX_HANDLES:
             self.loop.stop()
@@ -531,6 +667,7 @@ class Run:
                 ag["reported"] = True
                 self.ev(f"interrupt {ag['target']} {ag['code']}")
         self.cur_exc = False
+        self.eager_check()
         self.boundary()
         self.pump()
 
@@ -652,10 +789,14 @@ class Run:
         for w, wk in enumerate(case["workers"]):
             coro = self.worker(w)
             coros.append(coro)
-            if wk["kind"] == "P":
+            if isp(wk["kind"]):
                 v = pyval(wk["pri"])
                 self.owns.append(frac(v))
-                t = P.PriorityTask(coro, loop=self.loop, priority=v)
+                RT, DT = task_classes()
+                cls = {"P": P.PriorityTask, "R": RT, "D": DT}[wk["kind"]]
+                t = cls(coro, loop=self.loop, priority=v)
+                if wk["kind"] == "D":
+                    self.tags.add("duck-typed-priority-task")
                 specs.append("P:" + fr(frac(v)))
                 if isinstance(v, P.Priority):
                     self.tags.add("priority-enum-member")
@@ -714,6 +855,8 @@ class Run:
                       f"{unfinished} never finished (waiting: {dict(self.waiting)})")
         for w, t in enumerate(self.tasks):
             oc = self.outcome.get(w)
+            if oc == "UserPriorityError" and w in self.cb_failed:
+                continue                    # its own acquire() raised what the user callback raised
             if oc == "RecursionError" and w in self.cycle_failed:
                 continue                    # acquire() on a lock-order cycle: the documented way out
             if t.done() and w not in self.faulted and oc not in ("ok", None):
@@ -729,7 +872,7 @@ class Run:
                     self.fail("unclean-quiescence", f"lock {k}: locked={lock.locked()} "
                               f"owner={lock._owning} waiters={len(lock._waiters or ())}")
             for w, t in enumerate(self.tasks):
-                if self.case["workers"][w]["kind"] == "P" and (t._holding_locks or t._waiting_on):
+                if isp(self.case["workers"][w]["kind"]) and (t._holding_locks or t._waiting_on):
                     self.fail("unclean-quiescence", f"worker {w} still records holding="
                               f"{len(t._holding_locks)} waiting_on={t._waiting_on}")
         if any(self.outcome.get(w) == "ok" and w in self.faulted for w in range(len(self.tasks))):
@@ -886,18 +1029,20 @@ def gen_inflight_case(rng):
     return {"loop": loop, "nlocks": 1, "nevents": 1 if use_ev else 0, "workers": ws, "env": env}
 
 
-def gen_chain_contended_case(rng, mode="C12"):
-    """Directed shape for C12 (also valid for C11): a chain over n = 2..3 locks taken in ascending
+def gen_chain_contended_case(rng, mode="C12", crowd=0):
+    """(`crowd` > 0: a chain over 3 locks, and that many less urgent tasks are queued on the middle lock
+    next to the chain task, before the urgent task arrives.)
+    Directed shape for C12 (also valid for C11): a chain over n = 2..3 locks taken in ascending
     order - the top task holds L(n-1); task i holds L(i) and is queued on L(i+1); an urgent task
     arrives last on L0, so its priority has to travel through the whole chain *while every link is
     already queued* - plus 1..2 competitors of intermediate urgency queued on locks of the chain
     (always one on the top lock).  When the top lock is released it must go to the chain task
     (effective priority inherited through 2..3 locks), not to the competitor."""
-    n = rng.choice([2, 3, 3])
+    n = 3 if crowd else rng.choice([2, 3, 3])
     loop = rng.choice(["stock", "prio"])
     pad = lambda k: [["sleep"]] * k  # noqa: E731
     ws = []
-    hold_n = n + rng.randint(5, 9)
+    hold_n = n + rng.randint(5, 9) + (2 if crowd else 0)
     ws.append({"kind": "P" if mode == "C11" else rng.choice("PPPTY"),
                "pri": rng.choice(["5", "3", "LOW", "2", "1"]),
                "script": [["acq", n - 1]] + pad(hold_n) + [["rel"]]})
@@ -906,7 +1051,11 @@ def gen_chain_contended_case(rng, mode="C12"):
                    "script": pad(n - 1 - i) + [["acq", i], ["acq", i + 1]] + pad(rng.randint(0, 1))
                    + [["rel"], ["rel"]]})
     ws.append({"kind": "P", "pri": rng.choice(["-5", "-2", "HIGH", "-3/2"]),
-               "script": pad(n + rng.randint(1, 3)) + [["acq", 0], ["rel"]]})
+               "script": pad(n + rng.randint(1, 3) + (2 if crowd else 0)) + [["acq", 0], ["rel"]]})
+    for _ in range(crowd):
+        ws.append({"kind": "P" if mode == "C11" else rng.choice("PPPT"),
+                   "pri": rng.choice(["6", "7", "8", "LOW", "15/2"]),
+                   "script": pad(rng.randint(1, 3)) + [["acq", 1], ["rel"]]})
     locks = [n - 1] + [rng.randrange(n) for _ in range(rng.randint(0, 1))]
     for k in locks:
         kind = "P" if mode == "C11" else rng.choice("PPPT")
@@ -950,8 +1099,9 @@ def gen_reuse_case(rng):
     return {"loop": loop, "nlocks": 2, "nevents": 0, "workers": ws, "env": []}
 
 
-def gen_headkey_case(rng):
-    """Directed shape for C11 on the priority loop (strict priorities, so the order of arrival is
+def gen_headkey_case(rng, crowd=0):
+    """(`crowd` > 0: that many more, less urgent, tasks are queued on L2 next to B and X.)
+    Directed shape for C11 on the priority loop (strict priorities, so the order of arrival is
     arranged with gate events): C holds L2 and waits inside; B holds L1 and is queued on L2; X, more
     urgent than B's own priority, is queued on L2 too, so B is *not* at the head of L2's queue.  Then
     C and a medium task M become runnable and the urgent W arrives on L1 in the same instant: W's
@@ -968,8 +1118,10 @@ def gen_headkey_case(rng):
     C = mk(pc, [["acq", 2], ["wait", 0]] + [["sleep"]] * rng.randint(0, 2) + [["rel"]])
     B = mk(pb, [["acq", 1], ["acq", 2], ["rel"], ["rel"]])
     ws = [W, M, X, C, B]
+    for _ in range(crowd):
+        ws.append(mk(rng.choice(["6", "7", "8", "LOW", "15/2"]), [["wait", 3], ["acq", 2], ["rel"]]))
     rng.shuffle(ws)
-    env = [[5, "set", 3]] + [[6, "set", e] for e in rng.sample([0, 1, 2], 3)]
+    env = [[len(ws), "set", 3]] + [[len(ws) + 1 + crowd, "set", e] for e in rng.sample([0, 1, 2], 3)]
     return {"loop": "prio", "nlocks": 3, "nevents": 4, "workers": ws, "env": env}
 
 
@@ -1127,6 +1279,129 @@ def gen_two_episodes_case(rng):
     return {"loop": "stock", "nlocks": 2, "nevents": 0, "workers": ws, "env": []}
 
 
+def crowd_size(rng):
+    """waiter queues longer than a handful: 9..12 or 17..25"""
+    return rng.randint(9, 12) if rng.random() < 0.5 else rng.randint(17, 25)
+
+
+def gen_crowd_inflight_case(rng):
+    """Directed shape for C13 with a long waiter queue (9..12 or 17..25 waiters): H holds the lock, W is
+    the most urgent of the queued tasks, the others are bystanders.  In one instant, in a random order:
+    H is let go (it releases), 2..5 tasks more urgent than W arrive (each one sifts up the heap and pushes
+    entries down), and 1..2 bystanders are cancelled.  One wake-up, not more, may be in flight whatever
+    the queue looks like."""
+    mk = lambda kind, pri, script: {"kind": kind, "pri": pri, "script": script}  # noqa: E731
+    loop = rng.choice(["stock", "stock", "prio"])
+    nq = crowd_size(rng)
+    H = mk(rng.choice("PPT"), rng.choice(["0", "-30", "NORMAL"]), [["acq", 0], ["wait", 0], ["rel"]])
+    W = mk("P", "1", [["acq", 0]] + [["sleep"]] * rng.randint(0, 1) + [["rel"]])
+    ws = [H, W]
+    for j in range(nq - 1):
+        ws.append(mk(rng.choice("PPPY"), rng.choice(["2", "3", "5", "LOW", "5/2", "7"]) if rng.random() < 0.5
+                     else str(20 + j), [["acq", 0], ["rel"]]))
+    nu = rng.randint(3, 5) if rng.random() < 0.7 else 2
+    for j in range(nu):
+        ws.append(mk("P", str(-1 - j), [["wait", 1], ["acq", 0], ["rel"]]))
+    n0 = len(ws)
+    groups = [[[n0, "set", 0]], [[n0, "set", 1]],
+              [[n0, "cancel", i] for i in rng.sample(range(9 if (nq >= 11 and rng.random() < 0.7) else 2, nq + 1),
+                                                     rng.randint(1, 2))]]
+    if rng.random() < 0.4:
+        rng.shuffle(groups)
+    env = [a for g in groups for a in g]
+    return {"loop": loop, "nlocks": 1, "nevents": 2, "workers": ws, "env": env}
+
+
+def gen_raising_callback_case(rng):
+    """Directed shape for C11/C13: a user-written `priority()` (kind R) that raises once, while a waiter
+    announces itself.  G holds the top lock b; O holds lock a and is queued on b (or, on the priority loop,
+    is runnable), so that a newcomer W on lock a makes the library ask for priorities: acquire() computes
+    W's key, queues W and tells O, which re-keys itself - calling O's and W's priority().  The n-th of those
+    calls raises.  acquire() must fail cleanly: no entry of W stays in the queue, O's effective priority
+    is what it was, and later tasks still get both locks."""
+    mk = lambda kind, pri, script: {"kind": kind, "pri": pri, "script": script}  # noqa: E731
+    pad = lambda n: [["sleep"]] * n  # noqa: E731
+    loop = rng.choice(["stock", "prio"])
+    a, b = 0, 1
+    G = mk(rng.choice("PPT"), rng.choice(["0", "1", "-30"]), [["acq", b]] + pad(rng.randint(5, 8)) + [["rel"]])
+    O = mk(rng.choice("PR"), rng.choice(["5", "3", "LOW"]), [["acq", a], ["acq", b]] + pad(rng.randint(0, 1)) + [["rel"], ["rel"]])
+    ws = [G, O]
+    raiser = rng.choice([1, 2, 2])
+    if raiser == 1:
+        O["kind"] = "R"
+    W = mk("R", rng.choice(["-5", "-2", "HIGH", "2"]),
+           pad(rng.randint(1, 2)) + [["arm", raiser, rng.randint(1, 4)], ["acq", a]] + pad(rng.randint(0, 1)) + [["rel"]])
+    ws.append(W)
+    for _ in range(rng.randint(1, 2)):
+        ws.append(mk(rng.choice("PPY"), rng.choice(PRI_POOL),
+                     pad(rng.randint(1, 6)) + [["acq", rng.choice([a, b])]] + pad(rng.randint(0, 1)) + [["rel"]]))
+    env = []
+    if rng.random() < 0.2:
+        env.append([rng.randint(3, 12), "cancel", rng.randrange(len(ws))])
+    return {"loop": loop, "nlocks": 2, "nevents": 0, "workers": ws, "env": env}
+
+
+def gen_inherited_giveup_case(rng):
+    """Directed shape for C12 (stock loop): the waiter that gives up had *inherited* its urgency while it
+    was queued.  G holds the top lock 2 for long; O holds lock 1 and is queued on lock 2; M (own priority
+    low) holds lock 0 and is queued on lock 1 next to X (medium); the urgent U then waits for lock 0, so M,
+    and through it O, are re-keyed to U's priority.  M is cancelled: O falls back to X's priority, and Y
+    (between X and U), which arrives on lock 2 afterwards, must get lock 2 before O."""
+    mk = lambda kind, pri, script: {"kind": kind, "pri": pri, "script": script}  # noqa: E731
+    pad = lambda n: [["sleep"]] * n  # noqa: E731
+    G = mk(rng.choice("PT"), rng.choice(PRI_POOL), [["acq", 2]] + pad(rng.randint(16, 19)) + [["rel"]])
+    O = mk("P", rng.choice(["7", "LOW", "8"]), pad(1) + [["acq", 1], ["acq", 2], ["rel"], ["rel"]])
+    M = mk("P", rng.choice(["5", "4", "6"]), pad(2) + [["acq", 0], ["acq", 1], ["rel"], ["rel"]])
+    X = mk(rng.choice("PPT") if False else "P", rng.choice(["3", "2", "5/2"]), pad(rng.randint(2, 3)) + [["acq", 1], ["rel"]])
+    U = mk("P", rng.choice(["-1", "-2", "-3/2"]), pad(rng.randint(4, 5)) + [["acq", 0], ["rel"]])
+    Y = mk("P", rng.choice(["1", "0", "1/2"]), pad(rng.randint(10, 12)) + [["acq", 2], ["rel"]])
+    ws = [G, O, M, X, U, Y]
+    env = [[rng.randint(24, 32), "cancel", 2]]
+    return {"loop": "stock", "nlocks": 3, "nevents": 0, "workers": ws, "env": env}
+
+
+def gen_duck_case(rng):
+    """Directed shape for C13: task classes that only duck-type the priority protocol (kind D, built on the
+    Python task) use locks next to PriorityTasks; whatever the class, a released lock is no longer recorded
+    as held and takes no part in the task's effective priority."""
+    mk = lambda kind, pri, script: {"kind": kind, "pri": pri, "script": script}  # noqa: E731
+    pad = lambda n: [["sleep"]] * n  # noqa: E731
+    loop = rng.choice(["stock", "prio"])
+    nl = rng.randint(1, 2)
+    ws = []
+    for _ in range(rng.randint(2, 4)):
+        k = rng.randrange(nl)
+        script = pad(rng.randint(0, 2)) + [["acq", k]] + pad(rng.randint(0, 2)) + [["rel"]]
+        if rng.random() < 0.6:
+            script += pad(rng.randint(0, 2)) + [["acq", rng.randrange(nl)]] + pad(rng.randint(0, 1)) + [["rel"]]
+        ws.append(mk(rng.choice("DDP"), rng.choice(PRI_POOL), script))
+    ws[0]["kind"] = "D"
+    env = []
+    if rng.random() < 0.3:
+        env.append([rng.randint(2, 10), "cancel", rng.randrange(len(ws))])
+    return {"loop": loop, "nlocks": nl, "nevents": 0, "workers": ws, "env": env}
+
+
+def gen_eager_case(rng):
+    """Directed shape for C13: acquire() started eagerly (asynkit.coro_eager) by a worker while the lock is
+    held, so that it begins in the worker's task and is finished by the helper task; the worker then works
+    under the lock and releases it.  The lock must record the worker as its holder.  (Oracles only.)"""
+    mk = lambda kind, pri, script: {"kind": kind, "pri": pri, "script": script}  # noqa: E731
+    pad = lambda n: [["sleep"]] * n  # noqa: E731
+    loop = rng.choice(["stock", "prio"])
+    ws = [mk(rng.choice("PPT"), rng.choice(PRI_POOL), [["acq", 0]] + pad(rng.randint(2, 4)) + [["rel"]])]
+    for _ in range(rng.randint(1, 3)):
+        op = "eacq" if rng.random() < 0.7 else "acq"
+        ws.append(mk(rng.choice("PPY"), rng.choice(PRI_POOL),
+                     pad(rng.randint(0, 2)) + [[op, 0]] + pad(rng.randint(0, 2)) + [["rel"]]))
+    if not any(o[0] == "eacq" for w in ws for o in w["script"]):
+        ws[1]["script"] = [["eacq", 0], ["sleep"], ["rel"]]
+    env = []
+    if rng.random() < 0.3:
+        env.append([rng.randint(2, 10), "cancel", rng.randrange(len(ws))])
+    return {"loop": loop, "nlocks": 1, "nevents": 0, "workers": ws, "env": env}
+
+
 def gen_chain_case(rng):
     """Directed shape for C11: chain of length 1..4  T0 holds L0, Ti holds Li and waits on L(i-1)?
     With a fixed (ascending) lock order the chain is: Tn-1 holds L(n-1); Ti holds Li, waits L(i+1);
@@ -1196,8 +1471,14 @@ def shrink(case, kind, sched_oracle):
         for i in range(len(case["workers"]) - 1, -1, -1):
             if any(a[1] not in ("set", "callsoon") and a[2] == i for a in case["env"]):
                 continue
+            if any(op[0] == "arm" and op[1] == i for wk in case["workers"] for op in wk["script"]):
+                continue
             c = copy.deepcopy(case)
             del c["workers"][i]
+            for wk in c["workers"]:
+                for op in wk["script"]:
+                    if op[0] == "arm" and op[1] > i:
+                        op[1] -= 1
             for a in c["env"]:
                 if a[1] not in ("set", "callsoon") and a[2] > i:
                     a[2] -= 1
@@ -1210,7 +1491,7 @@ def shrink(case, kind, sched_oracle):
         changed = False
         for wi, wk in enumerate(case["workers"]):
             for oi, op in enumerate(wk["script"]):
-                if op[0] in ("sleep", "wait", "badrel"):
+                if op[0] in ("sleep", "wait", "badrel", "arm"):
                     c = copy.deepcopy(case)
                     del c["workers"][wi]["script"][oi]
                     if bad(c):
@@ -1241,7 +1522,7 @@ def explore(ctx, cases, kinds, theorem_of, sched_oracle=False, label="", max_rep
             again = fails_with(small, {kind}, sched_oracle) or (kind, detail)
             ctx.violation(kind, f"{label}{again[1]}", small, expected=kinds[kind],
                           observed=again[1], theorem=theorem_of.get(kind, ""))
-        if r.aborted:
+        if r.aborted or r.no_replay:
             r.lines, r.expect = [], []          # nothing meaningful to replay
         spans.append((len(all_lines) + 1, len(r.lines)))
         all_lines.append("reset")
